@@ -53,7 +53,7 @@ func c14E2E(a lib.Args, res *lib.Result) error {
 		}
 		prev[b] = p1
 	}
-	r := lib.NewRand(a.Seed + 514)
+	r := lib.NewRandStream(a.Seed, 514)
 	accts := []string{cfg.Access}
 	type obs struct {
 		g      c14GenDoc
